@@ -1,13 +1,44 @@
 import MtblProofs.TpProofs
+import MtblProofs.AccessProofs
 /-
   C14 — No data races in the concurrent uses the API allows (pool part).
   A race state = two different threads each have an enabled step, the two steps touch a common location, at least one
-  writes it, and no mutex is held by both.  No reachable state of the pool machine is a race state.
+  writes it, and no mutex is held by both.  No reachable state of the pool machine is a race state — for every pool
+  size, job count, ordered or unordered delivery, every schedule, spurious wake-ups included.
+
+  The access labels of the machine are tied to mtbl/threadpool.c by a table REGENERATED FROM THE C SOURCE on every run
+  (Mtbl.Generated.accessSites): `C14_sites_declared` and `C14_declared_in_model` below re-check it.
+
+  PARTIAL (DESIGN.md §8 C14): the machine has one caller and one result handler; several callers sharing one pool
+  (`pool->m`, `pool->c` with several waiters), the writer/sorter field partition and reader immutability are exercised
+  only at run time under ThreadSanitizer (correspondence family `mt`); the C11 memory model is not formalised.
 -/
 namespace Tp.C14
 variable {max njobs : Nat} {ordered : Bool} {s : St}
 
 theorem C14_norace (hm : 1 ≤ max) (hr : Reachable max njobs ordered s) :
     ∀ w1 w2, raceBetween s w1 w2 = false := Tp.C14_norace hm hr
+
+/-- every access site of the current threadpool.c is declared in the site table -/
+theorem C14_sites_declared :
+    Mtbl.Generated.accessSites.all (fun s => declared.any (fun d => d.1 == s)) = true := sites_declared
+
+/-- every declared site belonging to a machine step is labelled on that step with exactly the C code's lock set -/
+theorem C14_declared_in_model : declared.all (fun d => siteInModel d.1 d.2) = true := declared_in_model
+
+/-- the locking discipline of the pool's and the result queue's shared fields -/
+theorem C14_pool_fields_locked : declared.all (fun d =>
+    !(d.1.obj == "threadpool" && (d.1.field == "head" || d.1.field == "count")) || d.1.locks.contains "pool" ||
+      d.2 == .setup) = true := pool_fields_locked
+theorem C14_queue_fields_locked : declared.all (fun d =>
+    !(d.1.obj == "resultq") || d.1.locks.contains "rq" || d.2 == .setup || d.2 == .teardown) = true :=
+  queue_fields_locked
+
+/-- non-vacuity: the race predicate does fire on a machine state outside the reachable set (the caller assigning a job
+    to a thread whose worker is in its unlocked section) -/
+def racyState : St :=
+  { max := 1, njobs := 2, ordered := true, count := 1, cpc := CPc.assign 0,
+    thr := #[{ pc := WPc.gotJob, cb := some 0, running := true }] }
+example : raceBetween racyState .caller (.worker 0) = true := by decide
 
 end Tp.C14
